@@ -390,7 +390,7 @@ def extras(prop, tier, seed):
     if prop != "C13":
         return []
     from pyvc.report import run_bounded
-    return [run_bounded("logics", tier, seed)]
+    return [run_bounded("logics", tier, seed), run_bounded("factory", tier, seed)]
 
 
 def variants(world, tier="quick", only=None):
@@ -412,6 +412,117 @@ def variants(world, tier="quick", only=None):
         for k in ARITIES.get(Kop, (S.FIXED_ARITY.get(Kop),)):
             out.append(DetectVariant(world, Kop, k, target))
     out.append(TheoryFromTypeVariant(world))
+    if only:
+        out = [v for v in out if any(o in v.name for o in only)]
+    return out
+
+
+# ---------------------------------------------------------------------------
+# Factory._get_solver_class: the class is created with a logic it declares, at least as expressive as the request
+# ---------------------------------------------------------------------------
+class FactorySelectVariant(Variant):
+    """_get_solver_class(solver_list, solver_type, default_logic, name, logic) with one or two registered classes, each
+    declaring two logics of arbitrary theories; get_closer_logic / most_generic_logic / _filter_solvers enter through their
+    contracts (proved above; _filter_solvers assumed: the sub-dictionary of the classes that support the logic).
+    Post: the logic returned with the class is one of the logics that class declares and is at least as expressive as the
+    requested one (when one was requested); a named class is the one returned."""
+    prop_ids = ("C13",)
+    qualname = "pysmt.factory.Factory._get_solver_class"
+    bounded = "arity"
+    replay_kind = "factory"
+
+    def __init__(self, world, named, requested):
+        self.world, self.named, self.requested = world, named, requested
+        self.name = "select:factory[%s/%s]" % ("by-name" if named else "by-preference", "logic-given" if requested else "no-logic")
+
+    def setup(self, ex):
+        from pyvc.symex import DictVal, Builtin
+        from pyvc.world import Contract
+        W = self.world
+        core.make_env(ex, W)
+        mk = ClosestLogicVariant(W, 1).mk_logic
+        self.lle = ClosestLogicVariant(W, 1).lle
+        self.classes = []
+        for c in range(2):
+            logics = [mk(ex, "C%dL%d" % (c, i)) for i in range(2)]
+            self.classes.append(Obj("builtins.type", {"LOGICS": logics}, tag="SolverClass%d" % c))
+        self.target = mk(ex, "T") if self.requested else None
+        self.default = mk(ex, "D")
+        v = self
+
+        class Closer(Contract):
+            qualname = "pysmt.logics.get_closer_logic"
+
+            def apply(self, exx, a, kw):
+                sup, tgt = BI.iterate(W, exx, a[0]), a[1]
+                for s in sup:
+                    if exx.decide(exx.fresh("closest_is_" + s.tag, B)):
+                        exx.assume(v.lle(tgt, s))
+                        return s
+                raise PyRaise(ExcVal("NoLogicAvailableError", ("no candidate",)))
+
+        class MostGeneric(Contract):
+            qualname = "pysmt.logics.most_generic_logic"
+
+            def apply(self, exx, a, kw):
+                sup = BI.iterate(W, exx, a[0])
+                for s in sup:
+                    if exx.decide(exx.fresh("most_generic_is_" + s.tag, B)):
+                        return s
+                raise PyRaise(ExcVal("NoLogicAvailableError", ("no most generic logic",)))
+
+        class Convert(Contract):
+            qualname = "pysmt.logics.convert_logic_from_string"
+
+            def apply(self, exx, a, kw):
+                return a[0]
+
+        class Filter(Contract):
+            qualname = "pysmt.factory.Factory._filter_solvers"
+
+            def apply(self, exx, a, kw):
+                lst = a[1]
+                out = []
+                for k_, cls in lst.items:
+                    if exx.decide(exx.fresh("supports_" + cls.tag, B)):
+                        out.append([k_, cls])
+                return DictVal(out)
+        for c in (Closer(), MostGeneric(), Convert(), Filter()):
+            c.world = W
+            W.contracts[c.qualname] = c
+        self.slist = DictVal([["first", self.classes[0]], ["second", self.classes[1]]])
+        self.factory = Obj("pysmt.factory.Factory", {"preferences": {"Solver": ["second", "first"]}}, tag="factory")
+        fi = W.repo.func(self.qualname)
+        return W.wrap_func(fi, fi.module, bound=self.factory), [], {"solver_list": self.slist, "solver_type": "Solver", "default_logic": self.default,
+                                                                      "name": "first" if self.named else None, "logic": self.target}
+
+    def check(self, ex, outcome):
+        kind, r = outcome
+        if kind == "raise":
+            ok = r.cls in ("NoSolverAvailableError", "NoLogicAvailableError")
+            return [("only-the-documented-errors", z3.BoolVal(bool(ok)))]
+        if not (isinstance(r, tuple) and len(r) == 2):
+            return [("returns-class-and-logic", z3.BoolVal(False))]
+        cls, lg = r
+        goals = [("returns-a-registered-class", z3.BoolVal(any(cls is c for c in self.classes)))]
+        if self.named:
+            goals.append(("the-named-class", z3.BoolVal(cls is self.classes[0])))
+        declared = isinstance(cls, Obj) and any(lg is s for s in cls.fields.get("LOGICS", []))
+        goals.append(("logic-is-one-the-class-declares", z3.BoolVal(bool(declared))))
+        want = self.target if self.requested else None
+        if want is not None and isinstance(lg, Obj):
+            goals.append(("logic-covers-the-request", self.lle(want, lg)))
+        return goals
+
+
+_base_variants13 = variants
+
+
+def variants(world, tier="quick", only=None):
+    out = _base_variants13(world, tier, None)
+    for named in (True, False):
+        for req in (True, False):
+            out.append(FactorySelectVariant(world, named, req))
     if only:
         out = [v for v in out if any(o in v.name for o in only)]
     return out
